@@ -105,11 +105,62 @@ def extract(src):
                   r"else \{ PyErr_Format\(PyExc_ZeroDivisionError,", body)
     if not m:
         raise RegenError("direct_from_buffer: length computation changed shape")
-    return dict(text=m.group("c"), cond=parse_cond(m.group("c")))
+    return dict(text=m.group("c"), cond=parse_cond(m.group("c")), **extract_fetch(src))
+
+
+LEAVES = {"-1": "LUnknown", "ct->ct_size": "LCtSize",
+          "get_array_length((CDataObject *)x) * ct->ct_itemdescr->ct_size": "LLenTimesItem"}
+SCONDS = {"ct->ct_flags & CT_ARRAY": "SIsArray", "ct->ct_itemdescr->ct_size >= 0": "SItemSizeKnown"}
+
+
+def parse_scond(t):
+    parts = [strip_parens(x) for x in split_top(strip_parens(t), "&&")]
+    out = None
+    for x in parts:
+        if x not in SCONDS:
+            raise RegenError("_fetch_as_buffer: unrecognised test %r" % x)
+        out = SCONDS[x] if out is None else "SAnd (%s) %s" % (out, SCONDS[x])
+    return out
+
+
+def parse_leaf(t):
+    t = strip_parens(t)
+    if t not in LEAVES:
+        raise RegenError("_fetch_as_buffer: unrecognised length expression %r" % t)
+    return LEAVES[t]
+
+
+def extract_fetch(src):
+    """the statements that set view->len for a cdata source in _fetch_as_buffer"""
+    m = re.search(r"static int _fetch_as_buffer\(PyObject \*x, Py_buffer \*view, int writable_only\)\s*\{(.*?)\n\}\n",
+                  src, re.S)
+    if not m:
+        raise RegenError("_fetch_as_buffer not found")
+    body = norm(m.group(1))
+    m = re.search(r"view->buf = \(\(CDataObject \*\)x\)->c_data; view->obj = NULL; (?P<s>.*?) return 0; \} else \{", body)
+    if not m:
+        raise RegenError("_fetch_as_buffer: cdata branch changed shape")
+    st = m.group("s")
+    m1 = re.fullmatch(r"view->len = (?P<d>[^;?]+); if \((?P<c>.*)\) view->len = (?P<a>[^;?]+);", st)
+    if m1:
+        expr = "LIf (%s) %s %s" % (parse_scond(m1.group("c")), parse_leaf(m1.group("a")), parse_leaf(m1.group("d")))
+    else:
+        m2 = re.fullmatch(r"view->len = (?P<c>[^?;]+) \? (?P<a>[^:;]+) : (?P<b>[^;]+);", st)
+        if m2:
+            expr = "LIf (%s) %s %s" % (parse_scond(m2.group("c")), parse_leaf(m2.group("a")), parse_leaf(m2.group("b")))
+        else:
+            m3 = re.fullmatch(r"view->len = (?P<a>[^;?]+);", st)
+            if not m3:
+                raise RegenError("_fetch_as_buffer: unrecognised statements %r" % st)
+            expr = parse_leaf(m3.group("a"))
+    return dict(fetch_text=st, fetch=expr)
 
 
 def render(t):
     return ("(* GENERATED by tools/props/c19_regen.py from src/c/_cffi_backend.c (direct_from_buffer) - do not edit. *)\n"
             "From Coq Require Import ZArith.\nFrom Cffi Require Import C19.Types.\nOpen Scope Z_scope.\n\n"
             "(* the test guarding `arraylength = view->len` for an open array 'T[]':\n     %s *)\n"
-            "Definition gen_from_buffer_fast : cond := %s.\n" % (t["text"].replace("*)", "* )"), t["cond"]))
+            "Definition gen_from_buffer_fast : cond := %s.\n\n"
+            "(* _fetch_as_buffer, cdata source: the statements computing view->len:\n     %s *)\n"
+            "Definition gen_fetch_len : lenexpr := %s.\n"
+            % (t["text"].replace("*)", "* )"), t["cond"], t["fetch_text"].replace("*)", "* )"), t["fetch"]))
